@@ -10,6 +10,9 @@ import Rl.Spec.OracleNav
 import Rl.Lemmas.EditorM
 import Rl.Lemmas.EditorOps
 import Rl.Lemmas.RowStore
+import Rl.Lemmas.RecallFrame
+import Rl.Lemmas.Vertical
+import Rl.Lemmas.LineBufferSafe
 open Rl Rl.Spec
 
 /-- Spec: moving up from entry `i+1` shows entry `i` exactly as stored, cursor at its end. -/
@@ -1345,3 +1348,419 @@ theorem C07_rows_empty (cfg : EdCfg) (r : RowStore) (n : Nav) (hr : cfg.histRows
     navFirstS (storeOf cfg) n = n ∧ navLastS (storeOf cfg) n = n := by
   have hL : (storeOf cfg).len = 0 := by rw [← h0]; exact Rows.histLen_rows cfg r hr
   simp [navPrevS, navNextS, navFirstS, navLastS, hL]
+
+
+/-! ### gap filling: the line being typed is a conserved quantity of recall, for arbitrary sequences,
+    on the store machine of any back end and on the editor model's own code -/
+
+
+/-- the line being typed (text, cursor) as the navigation state carries it: the edit line while
+    `idx = len`, the saved line while an entry is shown -/
+def typedN (H : HStore) (n : Nav) : Text × Nat :=
+  if n.idx = H.len then (n.buf, n.pos) else (n.savedBuf, n.savedPos)
+
+/-- **One step keeps the line being typed** (any back end whose `get` answers indices below `len`,
+    i.e. `StoreOK`; any index `≤ len`): each of Up / Down / first / last of the store machine — which
+    the editor model refines, `C07_*_refines_store` — and any edit of a recalled entry leaves
+    `typedN` (text AND cursor of the line being typed) unchanged and keeps the index `≤ len`.  In
+    particular first / last from a recalled entry never overwrite the saved line. -/
+theorem C07_typed_step_store (H : HStore) (hst : StoreOK H) (n : Nav) (hi : n.idx ≤ H.len) (op : NavOp) :
+    typedN H (navApplyS H n op) = typedN H n ∧ (navApplyS H n op).idx ≤ H.len := by
+  cases op with
+  | prev =>
+    simp only [navApplyS, navPrevS]
+    by_cases hl : H.len = 0
+    · simp only [hl, if_true]; exact ⟨trivial, by omega⟩
+    simp only [hl, if_false]
+    by_cases h0 : n.idx = 0
+    · simp only [h0, if_true]; exact ⟨trivial, by omega⟩
+    simp only [h0, if_false]
+    have hlt : n.idx - 1 < H.len := by omega
+    simp only [hlt, if_true]
+    cases hg : H.get (n.idx - 1) .reverse with
+    | none =>
+      simp only [navSave, typedN]
+      by_cases he : n.idx = H.len
+      · simp [he]
+      · simp [he]; omega
+    | some p =>
+      obtain ⟨j, e⟩ := p
+      have hj := hst _ _ _ _ hg
+      have hjn : ¬ j = H.len := by omega
+      simp only [navSave, typedN]
+      by_cases he : n.idx = H.len
+      · simp [he, hjn]; omega
+      · simp [he, hjn]; omega
+  | next =>
+    simp only [navApplyS, navNextS]
+    by_cases hl : H.len = 0 ∨ n.idx = H.len
+    · simp only [hl, if_true]; exact ⟨trivial, hi⟩
+    simp only [hl, if_false]
+    have hne : ¬ n.idx = H.len := fun h => hl (Or.inr h)
+    by_cases hlt : n.idx + 1 < H.len
+    · simp only [hlt, if_true]
+      cases hg : H.get (n.idx + 1) .forward with
+      | none =>
+        have : ¬ n.idx + 1 = H.len := by omega
+        simp [typedN, hne, this]; omega
+      | some p =>
+        obtain ⟨j, e⟩ := p
+        have hj := hst _ _ _ _ hg
+        have hjn : ¬ j = H.len := by omega
+        simp [typedN, hne, hjn]; omega
+    · simp only [hlt, if_false]
+      have : n.idx + 1 = H.len := by omega
+      simp [typedN, hne, this]
+  | first =>
+    simp only [navApplyS, navFirstS]
+    by_cases hl : H.len = 0
+    · simp only [hl, if_true]; exact ⟨trivial, by omega⟩
+    simp only [hl, if_false]
+    by_cases h0 : n.idx = 0
+    · simp only [h0, if_true]; exact ⟨trivial, by omega⟩
+    simp only [h0, if_false]
+    cases hg : H.get 0 .forward with
+    | none =>
+      simp only [navSave, typedN]
+      by_cases he : n.idx = H.len
+      · simp [he]
+      · simp [he]; omega
+    | some p =>
+      obtain ⟨j, e⟩ := p
+      have hj := hst _ _ _ _ hg
+      have hjn : ¬ j = H.len := by omega
+      simp only [navSave, typedN]
+      by_cases hje : j = n.idx
+      · have he : ¬ n.idx = H.len := by omega
+        simp [hje, he]; omega
+      · by_cases he : n.idx = H.len
+        · simp [hje, he, hjn]; omega
+        · simp [hje, he, hjn]; omega
+  | last =>
+    simp only [navApplyS, navLastS]
+    by_cases hl : H.len = 0 ∨ n.idx = H.len
+    · simp only [hl, if_true]; exact ⟨trivial, hi⟩
+    simp only [hl, if_false]
+    have hne : ¬ n.idx = H.len := fun h => hl (Or.inr h)
+    simp [typedN, hne]
+  | edit b p =>
+    simp only [navApplyS]
+    by_cases hlt : n.idx < H.len
+    · have hne : ¬ n.idx = H.len := by omega
+      simp [hlt, typedN, hne]; omega
+    · simp [hlt]; exact hi
+
+/-- **The line being typed is conserved by ANY sequence** of Up / Down / first / last steps mixed
+    with edits of recalled entries, from ANY state with index `≤ len` (not only from the line being
+    typed), over any `StoreOK` back end — no `RowsView` well-formedness needed.  Generalises
+    `C07_return_restores` / `C07_return_restores_rows`. -/
+theorem C07_typed_conserved_store (H : HStore) (hst : StoreOK H) (ops : List NavOp) :
+    ∀ (n : Nav), n.idx ≤ H.len →
+      typedN H (ops.foldl (navApplyS H) n) = typedN H n ∧ (ops.foldl (navApplyS H) n).idx ≤ H.len := by
+  induction ops with
+  | nil => intro n hn; exact ⟨rfl, hn⟩
+  | cons op rest ih =>
+    intro n hn
+    obtain ⟨h1, h2⟩ := C07_typed_step_store H hst n hn op
+    obtain ⟨h3, h4⟩ := ih _ h2
+    simp only [List.foldl_cons]
+    exact ⟨by rw [h3, h1], h4⟩
+
+/-- **Going past either end is a no-op**: on the line being typed (`idx = len`) Down and last change
+    nothing at all; at index 0 Up and first change nothing at all (shown entry, cursor, index and
+    saved line are kept).  Any back end, no hypotheses on the store. -/
+theorem C07_past_end_noop_store (H : HStore) (n : Nav) :
+    (n.idx = H.len → navNextS H n = n ∧ navLastS H n = n) ∧
+    (n.idx = 0 → navPrevS H n = n ∧ navFirstS H n = n) := by
+  refine ⟨fun h => ?_, fun h => ?_⟩
+  · simp [navNextS, navLastS, h]
+  · simp [navPrevS, navFirstS, h]
+
+/-- "the line being typed" of an editor state -/
+def typedE (cfg : EdCfg) (s : Ed) : Text × Nat := typedN (storeOf cfg) (navOf s)
+
+/-- what a sequence of editor steps is made of: the four recall commands of the model
+    (`editHistoryNext true/false`, `editHistory true/false`), an arbitrary editor command run always
+    (`cmd`), and an arbitrary editor command applied only while a recalled entry is shown (`onEntry`,
+    the counterpart of `NavOp.edit`) -/
+inductive EdNavOp where
+  | up | down | first | last
+  | onEntry (m : EM Unit)
+  | cmd (m : EM Unit)
+
+/-- an editor command that is not a recall command: from a navigable state it returns, stays
+    navigable and leaves the history index and the saved line alone (it may change the edit line and
+    its cursor in any way).  `C07_navFrame_motion` shows cursor motions through `edit_move` are such. -/
+def NavFrameOK (cfg : EdCfg) (m : EM Unit) : Prop :=
+  ∀ s, NavOK cfg s → ∃ s', m s = .ok ((), s') ∧ NavOK cfg s' ∧ s'.histIdx = s.histIdx ∧
+    s'.saved.buf = s.saved.buf ∧ s'.saved.pos = s.saved.pos
+
+/-- the model code run for one step -/
+def edNavStep (S : Segmenter) (U : UData) (cfg : EdCfg) : EdNavOp → EM Unit
+  | .up => editHistoryNext S U cfg true
+  | .down => editHistoryNext S U cfg false
+  | .first => editHistory S U cfg true
+  | .last => editHistory S U cfg false
+  | .onEntry m => fun s => if s.histIdx = histLen cfg then .ok ((), s) else m s
+  | .cmd m => m
+
+/-- the model code run for a sequence of steps (monadic sequencing in `EM`, panics propagate) -/
+def edNavRun (S : Segmenter) (U : UData) (cfg : EdCfg) : List EdNavOp → EM Unit
+  | [] => pure ()
+  | o :: r => edNavStep S U cfg o >>= fun _ => edNavRun S U cfg r
+
+/-- one editor step (hinter that does not panic, `StoreOK` back end, navigable state): never panics,
+    stays navigable, and keeps the line being typed unless it is a `cmd` run ON the line being typed -/
+theorem C07_editor_typed_step (S : Segmenter) (U : UData) (cfg : EdCfg) (hnp : cfg.hinterPanicAt = none)
+    (hst : StoreOK (storeOf cfg)) (o : EdNavOp) (ho : ∀ m, o = .onEntry m ∨ o = .cmd m → NavFrameOK cfg m)
+    (s : Ed) (h : NavOK cfg s) :
+    ∃ s', edNavStep S U cfg o s = .ok ((), s') ∧ NavOK cfg s' ∧
+      ((∀ m, o = .cmd m → s.histIdx ≠ histLen cfg) → typedE cfg s' = typedE cfg s) := by
+  have hi : (navOf s).idx ≤ (storeOf cfg).len := h.idx
+  cases o with
+  | up =>
+    obtain ⟨s', h1, h2, h3⟩ := C07_prev_refines_store S U cfg hnp hst s h
+    exact ⟨s', h1, h3, fun _ => by unfold typedE; rw [h2]; exact (C07_typed_step_store _ hst _ hi .prev).1⟩
+  | down =>
+    obtain ⟨s', h1, h2, h3⟩ := C07_next_refines_store S U cfg hnp hst s h
+    exact ⟨s', h1, h3, fun _ => by unfold typedE; rw [h2]; exact (C07_typed_step_store _ hst _ hi .next).1⟩
+  | first =>
+    obtain ⟨s', h1, h2, h3⟩ := C07_first_refines_store S U cfg hnp hst s h
+    exact ⟨s', h1, h3, fun _ => by unfold typedE; rw [h2]; exact (C07_typed_step_store _ hst _ hi .first).1⟩
+  | last =>
+    obtain ⟨s', h1, h2, h3⟩ := C07_last_refines_store S U cfg hnp s h
+    exact ⟨s', h1, h3, fun _ => by unfold typedE; rw [h2]; exact (C07_typed_step_store _ hst _ hi .last).1⟩
+  | onEntry m =>
+    by_cases he : s.histIdx = histLen cfg
+    · exact ⟨s, by simp [edNavStep, he], h, fun _ => rfl⟩
+    · obtain ⟨s', h1, h2, h3, h4, h5⟩ := ho m (Or.inl rfl) s h
+      refine ⟨s', by simp [edNavStep, he, h1], h2, fun _ => ?_⟩
+      have he' : ¬ s'.histIdx = histLen cfg := by rw [h3]; exact he
+      simp [typedE, typedN, navOf, storeOf, he, he', h4, h5]
+  | cmd m =>
+    obtain ⟨s', h1, h2, h3, h4, h5⟩ := ho m (Or.inr rfl) s h
+    refine ⟨s', h1, h2, fun hc => ?_⟩
+    have he : ¬ s.histIdx = histLen cfg := hc m rfl
+    have he' : ¬ s'.histIdx = histLen cfg := by rw [h3]; exact he
+    simp [typedE, typedN, navOf, storeOf, he, he', h4, h5]
+
+/-- **Editor model, arbitrary sequences**: for every list of Up / Down / first / last commands mixed
+    with arbitrary frame-respecting commands applied to recalled entries (cursor motions, edits), run
+    by the model's own code from ANY navigable state: no panic, the state stays navigable and the line
+    being typed (text and cursor — the edit line when `histIdx = len`, the saved line otherwise) is
+    the same at the end as at the start.  Hypotheses: hinter that does not panic; `StoreOK` (holds for
+    the default back end, `C07_storeOK_list`, and for SQLite rows, `C07_storeOK_rows`); each
+    `onEntry m` in the list satisfies `NavFrameOK`; no unguarded `cmd` (see
+    `C07_editor_typed_last_edit` for those). -/
+theorem C07_editor_typed_conserved (S : Segmenter) (U : UData) (cfg : EdCfg) (hnp : cfg.hinterPanicAt = none)
+    (hst : StoreOK (storeOf cfg)) (ops : List EdNavOp)
+    (hops : ∀ m, EdNavOp.onEntry m ∈ ops → NavFrameOK cfg m) (hnc : ∀ m, EdNavOp.cmd m ∉ ops) :
+    ∀ (s : Ed), NavOK cfg s →
+      ∃ s', edNavRun S U cfg ops s = .ok ((), s') ∧ NavOK cfg s' ∧ typedE cfg s' = typedE cfg s := by
+  induction ops with
+  | nil => intro s h; exact ⟨s, rfl, h, rfl⟩
+  | cons o rest ih =>
+    intro s h
+    obtain ⟨s1, h1, h2, h3⟩ := C07_editor_typed_step S U cfg hnp hst o
+      (fun m hm => by
+        rcases hm with hm | hm
+        · exact hops m (by rw [hm]; exact List.mem_cons_self)
+        · exact absurd (by rw [hm]; exact List.mem_cons_self) (hnc m)) s h
+    have h3' := h3 (fun m hm => absurd (by rw [hm]; exact List.mem_cons_self) (hnc m))
+    obtain ⟨s2, g1, g2, g3⟩ := ih (fun m hm => hops m (List.mem_cons_of_mem _ hm))
+      (fun m hm => hnc m (List.mem_cons_of_mem _ hm)) s1 h2
+    refine ⟨s2, ?_, g2, by rw [g3, h3']⟩
+    show (edNavStep S U cfg o >>= fun _ => edNavRun S U cfg rest) s = _
+    rw [EM.bind_apply, h1]
+    exact g1
+
+/-- **Coming back restores the line being typed, in the editor model**: started on the line being
+    typed, after any such sequence: if the index is back at `len` the edit line and cursor are exactly
+    the initial ones; otherwise the saved line and cursor are. Same hypotheses as
+    `C07_editor_typed_conserved`. -/
+theorem C07_editor_return_restores (S : Segmenter) (U : UData) (cfg : EdCfg) (hnp : cfg.hinterPanicAt = none)
+    (hst : StoreOK (storeOf cfg)) (ops : List EdNavOp)
+    (hops : ∀ m, EdNavOp.onEntry m ∈ ops → NavFrameOK cfg m) (hnc : ∀ m, EdNavOp.cmd m ∉ ops)
+    (s : Ed) (h : NavOK cfg s) (h0 : s.histIdx = histLen cfg) :
+    ∃ s', edNavRun S U cfg ops s = .ok ((), s') ∧ s'.histIdx ≤ histLen cfg ∧
+      (s'.histIdx = histLen cfg → s'.line.buf = s.line.buf ∧ s'.line.pos = s.line.pos) ∧
+      (s'.histIdx ≠ histLen cfg → s'.saved.buf = s.line.buf ∧ s'.saved.pos = s.line.pos) := by
+  obtain ⟨s', h1, h2, h3⟩ := C07_editor_typed_conserved S U cfg hnp hst ops hops hnc s h
+  refine ⟨s', h1, h2.idx, fun he => ?_, fun he => ?_⟩
+  · simp [typedE, typedN, navOf, storeOf, he, h0] at h3; exact h3
+  · simp [typedE, typedN, navOf, storeOf, he, h0] at h3; exact h3
+
+/-- cursor motions run through `edit_move` respect the frame (`MotionOK`: the motion does not fail on
+    a cursor inside the text, keeps the text, leaves the cursor inside the text; proved for
+    `moveBufferStart` / `moveBufferEnd` in Rl/Lemmas/RecallFrame.lean) -/
+theorem C07_navFrame_motion (S : Segmenter) (U : UData) (cfg : EdCfg) (op : LM Bool) (hop : MotionOK op) :
+    NavFrameOK cfg (editMove S U cfg op) := by
+  intro s h
+  obtain ⟨r, l', ns, e1, e2, e3, e4⟩ := hop s.line h.linePos
+  obtain ⟨s', g1, g2, g3, g4⟩ := editMove_frame S U cfg e1
+  refine ⟨s', g1, ⟨?_, ?_, ?_, ?_, ?_⟩, g4, by rw [g3], by rw [g3]⟩
+  · rw [g2, e3]; exact h.lineGrow
+  · rw [g3]; exact h.savedGrow
+  · rw [g2]; exact e4
+  · rw [g3]; exact h.savedPos
+  · rw [g4]; exact h.idx
+
+/-- **Captured once, when leaving** (fully general sequences, commands may also run ON the line being
+    typed): after any list of recall commands and frame-respecting commands, either the line being
+    typed is the initial one, or the list splits at the LAST command `m` that ran on the line being
+    typed (`histIdx = len` just before it) and the line being typed at the end is exactly the one that
+    command left — whatever entries were visited or edited afterwards. -/
+theorem C07_editor_typed_last_edit (S : Segmenter) (U : UData) (cfg : EdCfg) (hnp : cfg.hinterPanicAt = none)
+    (hst : StoreOK (storeOf cfg)) (ops : List EdNavOp)
+    (hops : ∀ m, EdNavOp.onEntry m ∈ ops ∨ EdNavOp.cmd m ∈ ops → NavFrameOK cfg m) :
+    ∀ (s : Ed), NavOK cfg s →
+      ∃ s', edNavRun S U cfg ops s = .ok ((), s') ∧ NavOK cfg s' ∧
+        (typedE cfg s' = typedE cfg s ∨
+          ∃ pre m post s1 s2, ops = pre ++ EdNavOp.cmd m :: post ∧
+            edNavRun S U cfg pre s = .ok ((), s1) ∧ s1.histIdx = histLen cfg ∧ m s1 = .ok ((), s2) ∧
+            edNavRun S U cfg post s2 = .ok ((), s') ∧ typedE cfg s' = typedE cfg s2) := by
+  induction ops with
+  | nil => intro s h; exact ⟨s, rfl, h, Or.inl rfl⟩
+  | cons o rest ih =>
+    intro s h
+    obtain ⟨s1, h1, h2, h3⟩ := C07_editor_typed_step S U cfg hnp hst o
+      (fun m hm => by
+        rcases hm with hm | hm
+        · exact hops m (Or.inl (by rw [hm]; exact List.mem_cons_self))
+        · exact hops m (Or.inr (by rw [hm]; exact List.mem_cons_self))) s h
+    obtain ⟨s2, g1, g2, g3⟩ := ih (fun m hm => hops m (hm.imp (List.mem_cons_of_mem _) (List.mem_cons_of_mem _))) s1 h2
+    have hrun : edNavRun S U cfg (o :: rest) s = .ok ((), s2) := by
+      show (edNavStep S U cfg o >>= fun _ => edNavRun S U cfg rest) s = _
+      rw [EM.bind_apply, h1]; exact g1
+    refine ⟨s2, hrun, g2, ?_⟩
+    rcases g3 with g3 | ⟨pre, m, post, t1, t2, e1, e2, e3, e4, e5, e6⟩
+    · by_cases hc : ∀ m, o = .cmd m → s.histIdx ≠ histLen cfg
+      · exact Or.inl (by rw [g3, h3 hc])
+      · have : ∃ m, o = .cmd m ∧ s.histIdx = histLen cfg := by
+          apply Classical.byContradiction
+          intro hn
+          exact hc fun m hm he => hn ⟨m, hm, he⟩
+        obtain ⟨m, hm, he⟩ := this
+        subst hm
+        exact Or.inr ⟨[], m, rest, s, s1, rfl, rfl, he, h1, g1, g3⟩
+    · refine Or.inr ⟨o :: pre, m, post, t1, t2, by rw [e1]; rfl, ?_, e3, e4, e5, e6⟩
+      show (edNavStep S U cfg o >>= fun _ => edNavRun S U cfg pre) s = _
+      rw [EM.bind_apply, h1]; exact e2
+
+/-- the four recall steps are what `execute` runs for `PreviousHistory` (C-p), `NextHistory` (C-n),
+    `BeginningOfHistory` (M-<), `EndOfHistory` (M->) -/
+theorem C07_execute_recall_cmds (S : Segmenter) (U : UData) (cfg : EdCfg) (s : Ed) :
+    execute S U cfg .previousHistory s = (edNavStep S U cfg .up >>= fun _ => pure Status.proceed) s ∧
+    execute S U cfg .nextHistory s = (edNavStep S U cfg .down >>= fun _ => pure Status.proceed) s ∧
+    execute S U cfg .beginningOfHistory s = (edNavStep S U cfg .first >>= fun _ => pure Status.proceed) s ∧
+    execute S U cfg .endOfHistory s = (edNavStep S U cfg .last >>= fun _ => pure Status.proceed) s :=
+  ⟨rfl, rfl, rfl, rfl⟩
+
+/-- **Up arrow / vi k on the top line recalls**: when no newline precedes the cursor (text `x ++ y`,
+    cursor after `x`, `'\n' ∉ x`) `LineUpOrPreviousHistory n` is exactly the Up recall step. -/
+theorem C07_arrow_up_recalls_on_top_line (S : Segmenter) (U : UData) (cfg : EdCfg) (n : Nat) (s : Ed)
+    (x y : Text) (hb : s.line.buf = x ++ y) (hp : s.line.pos = blen x) (hx : '\n' ∉ x) :
+    execute S U cfg (.lineUpOrPreviousHistory n) s =
+      (edNavStep S U cfg .up >>= fun _ => pure Status.proceed) s := by
+  have hst : sliceTo s.line.buf s.line.pos = .ok x := by rw [hb, hp]; exact sliceTo_mid x y
+  have hf : rfindChar '\n' x = none := vm_rfindChar_none hx
+  have hm : ∀ pc, LB.moveToLineUp S U n pc s.line = .ok (false, s.line, []) := by
+    intro pc
+    unfold LB.moveToLineUp
+    simp [LM.bind_apply, LM.get, LM.lift, hst, hf]
+  show (do
+    let pc ← getPromptCol
+    if ← lbQuiet (LB.moveToLineUp S U n pc) then moveCursor S U cfg
+    else editHistoryNext S U cfg true
+    pure Status.proceed : EM Status) s = _
+  simp only [EM.bind_apply, getPromptCol, lbQuiet_ok (hm _)]
+  rfl
+
+/-- **Down arrow / vi j on the bottom line recalls**: when no newline follows the cursor
+    `LineDownOrNextHistory n` is exactly the Down recall step. -/
+theorem C07_arrow_down_recalls_on_bottom_line (S : Segmenter) (U : UData) (cfg : EdCfg) (n : Nat) (s : Ed)
+    (x y : Text) (hb : s.line.buf = x ++ y) (hp : s.line.pos = blen x) (hy : '\n' ∉ y) :
+    execute S U cfg (.lineDownOrNextHistory n) s =
+      (edNavStep S U cfg .down >>= fun _ => pure Status.proceed) s := by
+  have hsf : sliceFrom s.line.buf s.line.pos = .ok y := by rw [hb, hp]; exact sliceFrom_mid x y
+  have hf : findChar '\n' y = none := vm_findChar_none hy
+  have hm : ∀ pc, LB.moveToLineDown S U n pc s.line = .ok (false, s.line, []) := by
+    intro pc
+    unfold LB.moveToLineDown
+    simp [LM.bind_apply, LM.get, LM.lift, hsf, hf]
+  show (do
+    let pc ← getPromptCol
+    if ← lbQuiet (LB.moveToLineDown S U n pc) then moveCursor S U cfg
+    else editHistoryNext S U cfg false
+    pure Status.proceed : EM Status) s = _
+  simp only [EM.bind_apply, getPromptCol, lbQuiet_ok (hm _)]
+  rfl
+
+/-- the state `readline` starts from is navigable and on the line being typed, so the theorems above
+    apply to every read (whatever the history, the kill ring and the input) -/
+theorem C07_navOK_initEd (cfg : EdCfg) (ring : KillRing) (input : Input) :
+    NavOK cfg (initEd cfg ring input) ∧ (initEd cfg ring input).histIdx = histLen cfg :=
+  ⟨⟨rfl, rfl, Nat.le_refl _, Nat.le_refl _, Nat.le_refl _⟩, rfl⟩
+
+/-- non-vacuity: the whole-buffer motions are admissible `onEntry` / `cmd` steps for every configuration -/
+example (S : Segmenter) (U : UData) (cfg : EdCfg) :
+    NavFrameOK cfg (editMove S U cfg (LB.moveBufferStart S U)) ∧
+    NavFrameOK cfg (editMove S U cfg (LB.moveBufferEnd S U)) :=
+  ⟨C07_navFrame_motion S U cfg _ (motionOK_moveBufferStart S U),
+   C07_navFrame_motion S U cfg _ (motionOK_moveBufferEnd S U)⟩
+
+/-- non-vacuity of `C07_typed_conserved_store` on the SQLite example store with a hole: M-< from the
+    line being typed, an edit of the entry, Down over the hole, M-< again from a recalled entry (the
+    step a faulty implementation would use to overwrite the saved line), then M->: back on "x", cursor 1 -/
+example :
+    let H := storeOf C07_exCfg
+    let n0 : Nav := ⟨['x'], 1, 4, [], 0⟩
+    let n := [NavOp.first, .edit ['q'] 0, .next, .first, .last].foldl (navApplyS H) n0
+    StoreOK H ∧ n0.idx ≤ H.len ∧ n = ⟨['x'], 1, 4, ['x'], 1⟩ ∧ typedN H n = (['x'], 1) := by
+  refine ⟨C07_storeOK_rows C07_exCfg ⟨[0, 2, 3], 4⟩ rfl (by decide), by decide, by decide, by decide⟩
+
+/-! ### boundary of the conservation theorems: the prefix-search commands -/
+
+/-- one stored entry "x", default back end, emacs mode -/
+def C07_searchCfg : EdCfg := { vi := false, hist := [['x']] }
+
+/-- **Finding (outside the property's key list; reachable through a custom binding only):
+    `HistorySearchBackward` leaves the line being typed WITHOUT saving it.**  Witness: history ["x"],
+    "q" typed (cursor 1, on the line being typed).  `edit_history_search(Reverse)` decrements the
+    history index before searching, finds no entry starting with "q", and returns with the index at 0
+    while the edit line still shows "q" and `backup` was never called: what counts as the line being
+    typed is now the (stale) saved line.  So the conservation theorems above do not extend to the
+    prefix-search commands. -/
+theorem C07_history_search_drops_typed_line (S : Segmenter) (U : UData) (s : Ed)
+    (hl : s.line.buf = ['q']) (hp : s.line.pos = 1) (hi : s.histIdx = 1) :
+    editHistorySearch S U C07_searchCfg .reverse s = .ok ((), { s with histIdx := 0 }) ∧
+    typedE C07_searchCfg s = (['q'], 1) ∧
+    typedE C07_searchCfg { s with histIdx := 0 } = (s.saved.buf, s.saved.pos) := by
+  refine ⟨?_, ?_, ?_⟩
+  · have hs : sliceTo s.line.buf s.line.pos = .ok ['q'] := by
+      rw [hl, hp]; exact sliceTo_mid ['q'] []
+    have hm : (memHist C07_searchCfg).startsWith ['q'] 0 .reverse = none := by decide
+    unfold editHistorySearch
+    have hlen : C07_searchCfg.hist.length = 1 := rfl
+    simp [EM.bind_apply, getHistIdx, hi, setHistIdx, EM.modify, getLine, EM.liftP, hs, hm, hlen]
+  · simp [typedE, typedN, navOf, storeOf, histLen, C07_searchCfg, hi, hl, hp]
+  · simp [typedE, typedN, navOf, storeOf, histLen, C07_searchCfg]
+
+/-- … and the next Down (`NextHistory`) "returns" to the line being typed by restoring that stale
+    saved line (the empty line on a fresh read): the typed "q" is gone from the edit line. -/
+theorem C07_history_search_then_down_loses_line (S : Segmenter) (U : UData) (s : Ed)
+    (h : NavOK C07_searchCfg s) (hl : s.line.buf = ['q']) (hp : s.line.pos = 1) (hi : s.histIdx = 1) :
+    ∃ s1 s2, editHistorySearch S U C07_searchCfg .reverse s = .ok ((), s1) ∧
+      editHistoryNext S U C07_searchCfg false s1 = .ok ((), s2) ∧
+      s2.histIdx = 1 ∧ s2.line.buf = s.saved.buf ∧ s2.line.pos = s.saved.pos := by
+  obtain ⟨e1, _, _⟩ := C07_history_search_drops_typed_line S U s hl hp hi
+  have hst : StoreOK (storeOf C07_searchCfg) := by
+    rw [C07_storeOf_none _ rfl]; exact C07_storeOK_list _
+  have h1 : NavOK C07_searchCfg { s with histIdx := 0 } :=
+    ⟨h.lineGrow, h.savedGrow, h.linePos, h.savedPos, Nat.zero_le _⟩
+  obtain ⟨s2, g1, g2, _⟩ := C07_next_refines_store S U C07_searchCfg rfl hst _ h1
+  refine ⟨_, s2, e1, g1, ?_⟩
+  have hget : (storeOf C07_searchCfg).len = 1 := rfl
+  simp only [navOf, navNextS, hget, Nav.mk.injEq] at g2
+  simp at g2
+  exact ⟨g2.2.2.1, g2.1, g2.2.1⟩
